@@ -78,6 +78,20 @@ theorem blob_all (txs : List α) (rcs : List β)
   simp only [readBlob, blob_unmarshal_marshal encT encR txs rcs h1 h2 h3]
   exact ⟨allTx_build encT encR decT txs rcs hT, allRc_build encT encR decR txs rcs hR⟩
 
+
+/-- For ANY item decoder — the full one or a projection — the bytes it is handed for index `i` are
+exactly the encoding of item `i` (so every per-record statement of sections 3 and 4 lifts to the
+stored block). -/
+theorem blob_item_slice {γ : Type} (dec : Bytes → Option γ) (txs : List α) (rcs : List β)
+    (h1 : txs.length < 18446744073709551616) (h2 : rcs.length < 18446744073709551616)
+    (h3 : (concatEnc encT txs ++ concatEnc encR rcs).length < 18446744073709551616) (i : Nat) :
+    (∀ h : i < txs.length, readBlob (Blob.build encT encR txs rcs).marshal (fun b => b.getTx dec i) =
+        Res.ofOption (dec (encT txs[i]))) ∧
+    (∀ h : i < rcs.length, readBlob (Blob.build encT encR txs rcs).marshal (fun b => b.getRc dec i) =
+        Res.ofOption (dec (encR rcs[i]))) := by
+  simp only [readBlob, blob_unmarshal_marshal encT encR txs rcs h1 h2 h3]
+  exact ⟨fun h => getTx_build_raw encT encR dec txs rcs i h, fun h => getRc_build_raw encT encR dec txs rcs i h⟩
+
 /-- Offsets: `indexed.Write` records for item `i` the base plus the length of everything before
 it; offsets never decrease, consecutive offsets are one item apart, every item lies inside the data. -/
 theorem offsets_spec (enc : α → Bytes) (items : List α) (base : Nat) :
@@ -225,6 +239,74 @@ theorem receipt_projections_agree (cfg : DecCfg) (bs : Bytes) (hv : GoVal)
    projField_agrees cfg (fieldsOf tTransactionReceipt) (fieldsOf pReceiptExecutionStatus) (by decide) kRevertReason .str rfl rfl bs hv h,
    projField_agrees cfg (fieldsOf tTransactionReceipt) (fieldsOf pReceiptEvents) (by decide) kEvents (.slice tEvent) rfl rfl bs hv h,
    projField_agrees cfg (fieldsOf tTransactionReceipt) (fieldsOf pReceiptEvents) (by decide) kTransactionHash (.ptr .felt) rfl rfl bs hv h⟩
+
+
+/-- Projection tables up to pointer-ness (`projOKc`): the two projections whose wanted field is the
+pointer / pointee version of the record's field are covered too. -/
+theorem all_projections_well_formed :
+    projOKc (fieldsOf tHeader) (fieldsOf pHeaderTimestamp) = true ∧
+    projOK (fieldsOf tHeader) (fieldsOf pHeaderHash) = true ∧
+    projOK (fieldsOf tHeader) (fieldsOf pHeaderGlobalStateRoot) = true ∧
+    projOK (fieldsOf tHeader) (fieldsOf pHeaderTransactionCount) = true ∧
+    projOK (fieldsOf tHeader) (fieldsOf pHeaderEventsBloom) = true ∧
+    projOK (fieldsOf tHeader) (fieldsOf pHeaderHashAndStateRoot) = true ∧
+    projOK (fieldsOf tTransactionReceipt) (fieldsOf pReceiptExecutionStatus) = true ∧
+    projOK (fieldsOf tTransactionReceipt) (fieldsOf pReceiptEvents) = true := by
+  decide
+
+/-- `GetBlockHeaderTimestampByNumber`: the projection holds `*uint64` where the header holds
+`uint64`, so it can tell "absent / null" (reported as an error) from 0; when it returns a value it
+is the timestamp of the fully decoded header — on every record the full decoder accepts. -/
+theorem timestamp_projection_agrees (cfg : DecCfg) (bs : Bytes) (hv : GoVal)
+    (h : unmarshalVal cfg tHeader bs = some hv) :
+    getBlockHeaderTimestamp cfg bs = none ∨ getBlockHeaderTimestamp cfg bs = getField tHeader kTimestamp hv :=
+  timestamp_agrees cfg bs hv h
+
+/-- `GetTransactionHashesByBlockNumber`, per record: the projection names the union of the fields
+of all five transaction types and holds `TransactionHash` by value; the record is tag-wrapped.
+Whichever transaction type the full decoder finds under the tag, the projection reads that
+transaction's `TransactionHash` (a nil hash reads as zero, which the accessor reports as missing). -/
+theorem txhash_projection_agrees (cfg : DecCfg) (bs : Bytes) (i : Nat) (tv : GoVal)
+    (h : unmarshalVal cfg tTransaction bs = some (.iface i tv)) :
+    ∃ tg fs, txAlts[i]? = some (tg, .struct fs) ∧
+      projField cfg pTransactionHash kTransactionHash bs =
+        (getField (.struct fs) kTransactionHash tv).map feltOrZero :=
+  txhash_agrees cfg bs i tv h
+
+
+/-! ## 5. Composition: a stored block, read back typed -/
+
+/-- Encoding of an item of type `t` as the blob writer sees it. -/
+def encItem (t : GoType) (v : GoVal) : Bytes := (marshalVal t v).getD []
+
+/-- Transactions and receipts as typed values, written as a block, read back by (block, index)
+with the full decoders: what was stored — for every block size, every index, all five
+transaction kinds (values whose encodings respect CBOR's 64-bit size limits). -/
+theorem stored_block_readback (cfg : DecCfg) (txs rcs : List GoVal)
+    (hT : ∀ a ∈ txs, wt cfg tTransaction a = true ∧ ∀ c, encodeVal tTransaction a = some c → c.wf = true)
+    (hR : ∀ a ∈ rcs, wt cfg tTransactionReceipt a = true ∧ ∀ c, encodeVal tTransactionReceipt a = some c → c.wf = true)
+    (h1 : txs.length < 18446744073709551616) (h2 : rcs.length < 18446744073709551616)
+    (h3 : (concatEnc (encItem tTransaction) txs ++ concatEnc (encItem tTransactionReceipt) rcs).length < 18446744073709551616)
+    (i : Nat) :
+    (∀ h : i < txs.length,
+      readBlob (Blob.build (encItem tTransaction) (encItem tTransactionReceipt) txs rcs).marshal
+        (fun b => b.getTx (unmarshalVal cfg tTransaction) i) = .ok txs[i]) ∧
+    (∀ h : i < rcs.length,
+      readBlob (Blob.build (encItem tTransaction) (encItem tTransactionReceipt) txs rcs).marshal
+        (fun b => b.getRc (unmarshalVal cfg tTransactionReceipt) i) = .ok rcs[i]) := by
+  have key : ∀ (t : GoType) (a : GoVal), okType t = true → wt cfg t a = true →
+      (∀ c, encodeVal t a = some c → c.wf = true) → unmarshalVal cfg t (encItem t a) = some a := by
+    intro t a hok hw hwf
+    obtain ⟨c, e1, e2, e3⟩ := rt_bytes cfg t a hok hw
+    simp only [encItem, e2, Option.getD_some]
+    exact e3 (hwf c e1)
+  constructor
+  · intro h
+    exact blob_get_tx (encItem tTransaction) (encItem tTransactionReceipt) (unmarshalVal cfg tTransaction) txs rcs
+      (fun a ha => key tTransaction a tables_ok.2.1 (hT a ha).1 (hT a ha).2) h1 h2 h3 i h
+  · intro h
+    exact blob_get_rc (encItem tTransaction) (encItem tTransactionReceipt) (unmarshalVal cfg tTransactionReceipt) txs rcs
+      (fun a ha => key tTransactionReceipt a tables_ok.2.2.1 (hR a ha).1 (hR a ha).2) h1 h2 h3 i h
 
 /-! ## Non-vacuity -/
 
